@@ -29,6 +29,7 @@ type stopScenario struct {
 	GateFinal              bool
 	Release                []int64 // ... until cancel + Release[k] (k-th gated write, cyclic); negative = before the cancel
 	OneP                   bool    // run on a single P: the solicitation and the cancel reach the scheduler's select together
+	CancelInRead           bool    // the cancel happens inside the listener's next ReadFrom, right behind the last delivered solicitation
 	Tags                   []string
 }
 
@@ -97,6 +98,15 @@ func runStopScenario(t *testing.T, sc stopScenario) verifh.Case {
 		}
 
 		ctx, cancel := context.WithCancel(context.Background())
+		if sc.CancelInRead {
+			// the (len(Events)+1)-th read is the one that follows the hand-over of the last solicitation
+			var once sync.Once
+			v.conn.onRead = func(n int) {
+				if n == len(sc.Events)+1 {
+					once.Do(func() { v.conn.logEvent("cancel", 0); cancel() })
+				}
+			}
+		}
 		done := make(chan struct{})
 		go func() {
 			defer close(done)
@@ -113,10 +123,14 @@ func runStopScenario(t *testing.T, sc stopScenario) verifh.Case {
 				synctest.Wait()
 			}
 		}
-		time.Sleep(time.Until(cancelT))
-		v.conn.logEvent("cancel", 0)
-		cancel()
-		<-done
+		if sc.CancelInRead {
+			<-done
+		} else {
+			time.Sleep(time.Until(cancelT))
+			v.conn.logEvent("cancel", 0)
+			cancel()
+			<-done
+		}
 		// anything the advertiser still does after Run returned shows up after "return"
 		time.Sleep(30 * time.Second)
 		synctest.Wait()
@@ -207,8 +221,14 @@ func TestVerifC08(t *testing.T) {
 			emit(stopScenario{ID: "rs-now", Terminate: term, UnicastOnly: uo, Events: one, CancelAt: T, Tags: tag("rs-at-cancel")})
 			// the same on one P, repeated: the scheduler's select sees the request and the cancellation together and
 			// picks either; both orders must end in a clean stop
-			for rep := 0; rep < 12; rep++ {
+			for rep := 0; rep < 4; rep++ {
 				emit(stopScenario{ID: "rs-now-1p", Terminate: term, UnicastOnly: uo, Events: three, CancelAt: T + 2, OneP: true, Tags: tag("rs-at-cancel-one-P")})
+			}
+			// the cancel lands right behind a solicitation that was just handed to the scheduler (one P: the scheduler
+			// has the request but has not run yet)
+			for rep := 0; rep < 3; rep++ {
+				emit(stopScenario{ID: "cancel-in-read", Terminate: term, UnicastOnly: uo, Events: three[:1+rep], CancelAt: T + 2, OneP: true,
+					CancelInRead: true, Tags: tag("cancel-behind-handover")})
 			}
 			// in flight (blocked in WriteTo) at the cancel, released after / at / before it
 			for _, rel := range [][]int64{{1e6}, {2e9}, {0}, {-1e6}, {5e9, 1e6, 2e9}, {1e6, 1e6, 1e6}, {3e9, 2e9, 1e9}} {
